@@ -26,7 +26,7 @@ def run(ctx):
     for k in range(npairs):
         sub = rng.fork('p%d' % k)
         directed = sub.chance(0.5)
-        wtype = sub.choice(['i', 'i', 'r'])
+        wtype = 'i'
         e = gen.gen_edges(sub, 's', wtype, nmax=sub.choice([3, 5, 7]), recmax=sub.choice([4, 9]))
         K = sub.rint(2, 4)
         N, ul, vl = gen.model_lists(e['recs'], directed, wtype)
